@@ -221,6 +221,13 @@ func FullAlphabet(c *Cast) func(w *World) []Event {
 				return MsgPropose(c.Payer.Acc, *r, ct.c, feeOf(r, ct.c), false)
 			})
 		}
+		add("Propose(Tipper,R1rep,warning,full)", "propose/warning-full-tipper", func(w *World) sdk.Msg {
+			r := firstReportBy(w, c.R1.Acc)
+			if r == nil {
+				return nil
+			}
+			return MsgPropose(c.Tipper.Acc, *r, disputetypes.Warning, feeOf(r, disputetypes.Warning), false)
+		})
 		add("Propose(Payer,R1rep,warning,half)", "propose/warning-half", func(w *World) sdk.Msg {
 			r := firstReportBy(w, c.R1.Acc)
 			if r == nil {
